@@ -11,18 +11,19 @@ open Spec.X86
 
 /-- shape [reg, MEM] with a 64-bit-addressed, non-VSIB memory operand without segment / broadcast: all conditions of the monitor hold -/
 theorem vex_rm_mem_formOk (ctx : Spec.X86.Ctx) (rule : Rule) (p : Parsed) (mb : BitVec 8) (bytes pfx : List (BitVec 8))
-    (k0 : RegKind) (f0 f2 : FormOp) (i0 : Nat) (m : MemOp)
+    (k0 : RegKind) (f0 f2 : FormOp) (i0 : Nat) (m : MemOp) (k : Nat) (z : Bool)
     (hm64 : ctx.mode64 = true) (hmode : (rule.modes &&& 2 != 0) = true) (hk0 : PlainKind k0)
     (R : VexRuleM rule 0) (hf0 : f0.role = .reg) (hf2 : f2.role = .rm)
-    (K : PfxCounts pfx m) (hvs : vsibOf m = .none) (hbc : m.bcst = 0)
+    (K : PfxCounts pfx m) (D : DecorAllowed rule k z false false) (hvs : vsibOf m = .none) (hbc : m.bcst = 0)
     (hal : alignOps rule.oszEff rule.ops [.reg k0 i0, .mem m] =
            some [(f0, some (.reg k0 i0)), (f2, some (.mem m))])
-    (hparse : parse true rule bytes = .ok p) (P : VexParsedM rule p mb pfx)
+    (hparse : parse true rule bytes = .ok p) (P : VexParsedM rule p mb pfx k z)
     (hreg : regNum p.R' p.R (bits mb 3 3) = i0)
     (hvv : regNum p.V' false p.vvvv = 0)
     (hcm : checkMem ctx rule p m = .ok ()) :
-    formOk ctx rule [.reg k0 i0, .mem m] {} bytes = true := by
-  obtain ⟨hvk, hpfx, hrex, hmodrm, hmod, hop, hmap, hpp, hw, hl, hl1, hev⟩ := P
+    formOk ctx rule [.reg k0 i0, .mem m] (decorOf k z false false 0) bytes = true := by
+  obtain ⟨hvk, hpfx, hrex, hmodrm, hmod, hop, hmap, hpp, hw, hl, hl1, hev, hnk⟩ := P
+  obtain ⟨dk, dz, -, -⟩ := D
   obtain ⟨hs, hpp8, hri, hmk, hmr, hmrm, himm, hrel, hmoff, ha67, hrev, hosz⟩ := R
   obtain ⟨c66, cF3, cF2, cF0, c9B, cseg, c67, ccont⟩ := K
   have hleg : isLegacySpace rule = false := by rcases hs with h | h | h <;> simp [isLegacySpace, h]
@@ -32,7 +33,7 @@ theorem vex_rm_mem_formOk (ctx : Spec.X86.Ctx) (rule : Rule) (p : Parsed) (mb : 
   simp only [formOk, conds, hm64, hal, hparse, ↓reduceIte, hmode]
   simp only [allOk_cons, allOk_append, decorConds, headConds, prefixConds, modrmConds, operandConds, opConds, tailConds, hf0, hf2,
     regConds_plain _ _ _ _ _ hk0, allOk_nil, memOperandOf, implMemOf, usesVvvv, memDestOf, hcm, Spec.X86.ofExcept,
-    hasBcst, hleg, hri, hmodrm, hpfx, hrex, List.foldl, List.find?, c66, cF3, cF2, cF0, c9B, cseg, ccont]
+    hasBcst, hleg, hri, hmodrm, hpfx, hrex, List.foldl, List.find?, c66, cF3, cF2, cF0, c9B, cseg, ccont, decorOf]
   obtain ⟨hv0, hV⟩ := regNum_zero _ _ hvv
   simp [hop, hmap, hpp, hreg, hv0, hV, hmod', hmr, hmrm, hs4, hvk0, hpp8, ha67, hbc, hvs, hm64, allOk]
   have hvk0' : ¬ p.vexKind = 0 := by rcases hvk with h | h | h | h <;> omega
@@ -51,28 +52,36 @@ theorem vex_rm_mem_formOk (ctx : Spec.X86.Ctx) (rule : Rule) (p : Parsed) (mb : 
        · left; omega
        · right; exact hl1 h4)
     | (by_cases h4 : p.vexKind = 4
-       · obtain ⟨a, z, b, mm⟩ := hev h4
+       · obtain ⟨a, zz, b, mm⟩ := hev h4
          rw [hmap] at mm
-         simp [h4, allOk, a, z, b, mm]
-       · simp [h4, allOk])
+         simp [h4, allOk, a, zz, b, mm]
+       · obtain ⟨k0', z0'⟩ := hnk h4
+         simp [h4, allOk, k0', z0'])
+    | (by_cases h : k = 0
+       · exact Or.inl h
+       · exact Or.inr (dk h))
+    | (cases z
+       · exact Or.inl rfl
+       · exact Or.inr (dz rfl))
     | exact Or.inl (Or.inr (Or.inr (Or.inl ‹_›)))
     | rfl
 
 /-- shape [reg, vvvv, MEM, imm8] with a 64-bit-addressed, non-VSIB memory operand without segment / broadcast: all conditions of the monitor hold -/
 theorem vex_rvmi_mem_formOk (ctx : Spec.X86.Ctx) (rule : Rule) (p : Parsed) (mb : BitVec 8) (bytes pfx : List (BitVec 8))
-    (k0 k1 : RegKind) (f0 f1 f2 : FormOp) (i0 i1 : Nat) (m : MemOp)
+    (k0 k1 : RegKind) (f0 f1 f2 : FormOp) (i0 i1 : Nat) (m : MemOp) (k : Nat) (z : Bool)
     (hm64 : ctx.mode64 = true) (hmode : (rule.modes &&& 2 != 0) = true) (hk0 : PlainKind k0) (hk1 : PlainKind k1)
     (R : VexRuleM rule 1) (f3 : FormOp) (v : BitVec 64) (hf3 : f3.role = .imm) (hib : immBitsOf f3 = 8)
     (himmp : p.imm = [BitVec.ofNat 8 v.toNat]) (hf0 : f0.role = .reg) (hf1 : f1.role = .vvvv) (hf2 : f2.role = .rm)
-    (K : PfxCounts pfx m) (hvs : vsibOf m = .none) (hbc : m.bcst = 0)
+    (K : PfxCounts pfx m) (D : DecorAllowed rule k z false false) (hvs : vsibOf m = .none) (hbc : m.bcst = 0)
     (hal : alignOps rule.oszEff rule.ops [.reg k0 i0, .reg k1 i1, .mem m, .imm v] =
            some [(f0, some (.reg k0 i0)), (f1, some (.reg k1 i1)), (f2, some (.mem m)), (f3, some (.imm v))])
-    (hparse : parse true rule bytes = .ok p) (P : VexParsedM rule p mb pfx)
+    (hparse : parse true rule bytes = .ok p) (P : VexParsedM rule p mb pfx k z)
     (hreg : regNum p.R' p.R (bits mb 3 3) = i0)
     (hvv : regNum p.V' false p.vvvv = i1)
     (hcm : checkMem ctx rule p m = .ok ()) :
-    formOk ctx rule [.reg k0 i0, .reg k1 i1, .mem m, .imm v] {} bytes = true := by
-  obtain ⟨hvk, hpfx, hrex, hmodrm, hmod, hop, hmap, hpp, hw, hl, hl1, hev⟩ := P
+    formOk ctx rule [.reg k0 i0, .reg k1 i1, .mem m, .imm v] (decorOf k z false false 0) bytes = true := by
+  obtain ⟨hvk, hpfx, hrex, hmodrm, hmod, hop, hmap, hpp, hw, hl, hl1, hev, hnk⟩ := P
+  obtain ⟨dk, dz, -, -⟩ := D
   obtain ⟨hs, hpp8, hri, hmk, hmr, hmrm, himm, hrel, hmoff, ha67, hrev, hosz⟩ := R
   obtain ⟨c66, cF3, cF2, cF0, c9B, cseg, c67, ccont⟩ := K
   have hleg : isLegacySpace rule = false := by rcases hs with h | h | h <;> simp [isLegacySpace, h]
@@ -82,7 +91,7 @@ theorem vex_rvmi_mem_formOk (ctx : Spec.X86.Ctx) (rule : Rule) (p : Parsed) (mb 
   simp only [formOk, conds, hm64, hal, hparse, ↓reduceIte, hmode]
   simp only [allOk_cons, allOk_append, decorConds, headConds, prefixConds, modrmConds, operandConds, opConds, tailConds, hf3, hib, himmp, immBytesOf, oszEff_zero rule hosz hs, hrev, hf0, hf1, hf2,
     regConds_plain _ _ _ _ _ hk0, regConds_plain _ _ _ _ _ hk1, allOk_nil, memOperandOf, implMemOf, usesVvvv, memDestOf, hcm, Spec.X86.ofExcept,
-    hasBcst, hleg, hri, hmodrm, hpfx, hrex, List.foldl, List.find?, c66, cF3, cF2, cF0, c9B, cseg, ccont]
+    hasBcst, hleg, hri, hmodrm, hpfx, hrex, List.foldl, List.find?, c66, cF3, cF2, cF0, c9B, cseg, ccont, decorOf]
   simp [hop, hmap, hpp, hreg, hvv, hmod', hmr, hmrm, hs4, hvk0, hpp8, ha67, hbc, hvs, hm64, allOk]
   have hvk0' : ¬ p.vexKind = 0 := by rcases hvk with h | h | h | h <;> omega
   and_intros
@@ -100,10 +109,17 @@ theorem vex_rvmi_mem_formOk (ctx : Spec.X86.Ctx) (rule : Rule) (p : Parsed) (mb 
        · left; omega
        · right; exact hl1 h4)
     | (by_cases h4 : p.vexKind = 4
-       · obtain ⟨a, z, b, mm⟩ := hev h4
+       · obtain ⟨a, zz, b, mm⟩ := hev h4
          rw [hmap] at mm
-         simp [h4, allOk, a, z, b, mm]
-       · simp [h4, allOk])
+         simp [h4, allOk, a, zz, b, mm]
+       · obtain ⟨k0', z0'⟩ := hnk h4
+         simp [h4, allOk, k0', z0'])
+    | (by_cases h : k = 0
+       · exact Or.inl h
+       · exact Or.inr (dk h))
+    | (cases z
+       · exact Or.inl rfl
+       · exact Or.inr (dz rfl))
     | exact Or.inl (Or.inr (Or.inr (Or.inl ‹_›)))
     | exact Or.inl (Or.inr (Or.inr hf1))
     | rfl
@@ -111,19 +127,20 @@ theorem vex_rvmi_mem_formOk (ctx : Spec.X86.Ctx) (rule : Rule) (p : Parsed) (mb 
 
 /-- shape [reg, MEM, imm8] with a 64-bit-addressed, non-VSIB memory operand without segment / broadcast: all conditions of the monitor hold -/
 theorem vex_rmi_mem_formOk (ctx : Spec.X86.Ctx) (rule : Rule) (p : Parsed) (mb : BitVec 8) (bytes pfx : List (BitVec 8))
-    (k0 : RegKind) (f0 f2 : FormOp) (i0 : Nat) (m : MemOp)
+    (k0 : RegKind) (f0 f2 : FormOp) (i0 : Nat) (m : MemOp) (k : Nat) (z : Bool)
     (hm64 : ctx.mode64 = true) (hmode : (rule.modes &&& 2 != 0) = true) (hk0 : PlainKind k0)
     (R : VexRuleM rule 1) (f3 : FormOp) (v : BitVec 64) (hf3 : f3.role = .imm) (hib : immBitsOf f3 = 8)
     (himmp : p.imm = [BitVec.ofNat 8 v.toNat]) (hf0 : f0.role = .reg) (hf2 : f2.role = .rm)
-    (K : PfxCounts pfx m) (hvs : vsibOf m = .none) (hbc : m.bcst = 0)
+    (K : PfxCounts pfx m) (D : DecorAllowed rule k z false false) (hvs : vsibOf m = .none) (hbc : m.bcst = 0)
     (hal : alignOps rule.oszEff rule.ops [.reg k0 i0, .mem m, .imm v] =
            some [(f0, some (.reg k0 i0)), (f2, some (.mem m)), (f3, some (.imm v))])
-    (hparse : parse true rule bytes = .ok p) (P : VexParsedM rule p mb pfx)
+    (hparse : parse true rule bytes = .ok p) (P : VexParsedM rule p mb pfx k z)
     (hreg : regNum p.R' p.R (bits mb 3 3) = i0)
     (hvv : regNum p.V' false p.vvvv = 0)
     (hcm : checkMem ctx rule p m = .ok ()) :
-    formOk ctx rule [.reg k0 i0, .mem m, .imm v] {} bytes = true := by
-  obtain ⟨hvk, hpfx, hrex, hmodrm, hmod, hop, hmap, hpp, hw, hl, hl1, hev⟩ := P
+    formOk ctx rule [.reg k0 i0, .mem m, .imm v] (decorOf k z false false 0) bytes = true := by
+  obtain ⟨hvk, hpfx, hrex, hmodrm, hmod, hop, hmap, hpp, hw, hl, hl1, hev, hnk⟩ := P
+  obtain ⟨dk, dz, -, -⟩ := D
   obtain ⟨hs, hpp8, hri, hmk, hmr, hmrm, himm, hrel, hmoff, ha67, hrev, hosz⟩ := R
   obtain ⟨c66, cF3, cF2, cF0, c9B, cseg, c67, ccont⟩ := K
   have hleg : isLegacySpace rule = false := by rcases hs with h | h | h <;> simp [isLegacySpace, h]
@@ -133,7 +150,7 @@ theorem vex_rmi_mem_formOk (ctx : Spec.X86.Ctx) (rule : Rule) (p : Parsed) (mb :
   simp only [formOk, conds, hm64, hal, hparse, ↓reduceIte, hmode]
   simp only [allOk_cons, allOk_append, decorConds, headConds, prefixConds, modrmConds, operandConds, opConds, tailConds, hf3, hib, himmp, immBytesOf, oszEff_zero rule hosz hs, hrev, hf0, hf2,
     regConds_plain _ _ _ _ _ hk0, allOk_nil, memOperandOf, implMemOf, usesVvvv, memDestOf, hcm, Spec.X86.ofExcept,
-    hasBcst, hleg, hri, hmodrm, hpfx, hrex, List.foldl, List.find?, c66, cF3, cF2, cF0, c9B, cseg, ccont]
+    hasBcst, hleg, hri, hmodrm, hpfx, hrex, List.foldl, List.find?, c66, cF3, cF2, cF0, c9B, cseg, ccont, decorOf]
   obtain ⟨hv0, hV⟩ := regNum_zero _ _ hvv
   simp [hop, hmap, hpp, hreg, hv0, hV, hmod', hmr, hmrm, hs4, hvk0, hpp8, ha67, hbc, hvs, hm64, allOk]
   have hvk0' : ¬ p.vexKind = 0 := by rcases hvk with h | h | h | h <;> omega
@@ -152,10 +169,17 @@ theorem vex_rmi_mem_formOk (ctx : Spec.X86.Ctx) (rule : Rule) (p : Parsed) (mb :
        · left; omega
        · right; exact hl1 h4)
     | (by_cases h4 : p.vexKind = 4
-       · obtain ⟨a, z, b, mm⟩ := hev h4
+       · obtain ⟨a, zz, b, mm⟩ := hev h4
          rw [hmap] at mm
-         simp [h4, allOk, a, z, b, mm]
-       · simp [h4, allOk])
+         simp [h4, allOk, a, zz, b, mm]
+       · obtain ⟨k0', z0'⟩ := hnk h4
+         simp [h4, allOk, k0', z0'])
+    | (by_cases h : k = 0
+       · exact Or.inl h
+       · exact Or.inr (dk h))
+    | (cases z
+       · exact Or.inl rfl
+       · exact Or.inr (dz rfl))
     | exact Or.inl (Or.inr (Or.inr (Or.inl ‹_›)))
     | rfl
     | simp [leBytes, allOk]
